@@ -51,6 +51,15 @@ type Module struct {
 	Tools    *gen.Tools
 	Cases    []*Built
 	GoCache  string
+	// ModName is the module path of the scratch module ("scratch" unless set before Generate)
+	ModName string
+}
+
+func (m *Module) modName() string {
+	if m.ModName == "" {
+		return "scratch"
+	}
+	return m.ModName
 }
 
 // New creates an empty scratch module under a fresh temporary directory.
@@ -157,7 +166,7 @@ func (m *Module) FinalizeCase(c *space.Case) {
 	c.File.Pkg = c.ID
 	c.File.Name = c.ID + ".proto"
 	if c.Separate {
-		imp := "scratch/cases/" + c.ID + "/" + structDir(c)
+		imp := m.modName() + "/cases/" + c.ID + "/" + structDir(c)
 		c.Cfg.TargetPkg = "tfschema"
 		if c.Variant == "short+override" {
 			c.Cfg.DefaultPkg = "structs"
@@ -277,7 +286,7 @@ func (m *Module) writePackage(b *Built) {
 	}
 	structsDir, tfDir := b.Dir, b.Dir
 	tfPkg := pbPkg
-	b.ImportPath = "scratch/cases/" + c.ID
+	b.ImportPath = m.modName() + "/cases/" + c.ID
 	if c.Separate {
 		structsDir = filepath.Join(b.Dir, structDir(c))
 		tfDir = filepath.Join(b.Dir, "tfschema")
@@ -305,7 +314,7 @@ func (m *Module) writePackage(b *Built) {
 	qual := ""
 	fmt.Fprintf(&rg, "package %s\n\nimport (\n\t\"context\"\n\n\t\"github.com/hashicorp/terraform-plugin-framework/diag\"\n\t\"github.com/hashicorp/terraform-plugin-framework/tfsdk\"\n\t\"github.com/hashicorp/terraform-plugin-framework/types\"\n\t\"verif/explorer\"\n", tfPkg)
 	if c.Separate {
-		fmt.Fprintf(&rg, "\tst %q\n", "scratch/cases/"+c.ID+"/"+structDir(c))
+		fmt.Fprintf(&rg, "\tst %q\n", m.modName()+"/cases/"+c.ID+"/"+structDir(c))
 		qual = "st."
 	}
 	fmt.Fprintf(&rg, ")\n\n")
@@ -350,7 +359,7 @@ func (m *Module) WriteModule(include func(b *Built) bool) error {
 		return err
 	}
 	idx := bytes.Index(repoMod, []byte("require"))
-	gomod := "module scratch\n\ngo 1.18\n\nrequire verif v0.0.0\n\nreplace verif => " + m.VerifDir + "\n\n" + string(repoMod[idx:])
+	gomod := "module " + m.modName() + "\n\ngo 1.18\n\nrequire verif v0.0.0\n\nreplace verif => " + m.VerifDir + "\n\n" + string(repoMod[idx:])
 	if err := ioutil.WriteFile(filepath.Join(mod, "go.mod"), []byte(gomod), 0o644); err != nil {
 		return err
 	}
@@ -371,7 +380,9 @@ func (m *Module) WriteModule(include func(b *Built) bool) error {
 	return ioutil.WriteFile(filepath.Join(mod, "main.go"), mg.Bytes(), 0o644)
 }
 
-var pkgHdr = regexp.MustCompile(`(?m)^# (scratch/cases/\S+)`)
+var fileErr = regexp.MustCompile(`(?m)^cases/(c\d+)/\S+\.go:\d+:\d+: .*$`)
+
+var pkgHdr = regexp.MustCompile(`(?m)^# (\S+/cases/\S+)`)
 
 // Build compiles the module; packages that fail to compile are recorded in
 // CompileErr of their case and excluded, and the build is repeated.
@@ -381,7 +392,7 @@ func (m *Module) Build(include func(b *Built) bool) (string, error) {
 	byPath := map[string]*Built{}
 	for _, b := range m.Cases {
 		if b != nil {
-			byPath["scratch/cases/"+b.ID] = b
+			byPath[m.modName()+"/cases/"+b.ID] = b
 		}
 	}
 	for round := 0; round < 20; round++ {
@@ -398,10 +409,17 @@ func (m *Module) Build(include func(b *Built) bool) (string, error) {
 		// attribute errors to packages
 		text := string(out)
 		locs := pkgHdr.FindAllStringSubmatchIndex(text, -1)
-		if len(locs) == 0 {
+		progress := false
+		// errors reported by file (import resolution, package clause ...) carry no "# package" header
+		for _, fm := range fileErr.FindAllStringSubmatch(text, -1) {
+			if b, ok := byPath[m.modName()+"/cases/"+fm[1]]; ok && b.CompileErr == "" {
+				b.CompileErr = strings.TrimSpace(fm[0])
+				progress = true
+			}
+		}
+		if len(locs) == 0 && !progress {
 			return "", fmt.Errorf("scratch build failed:\n%s", text)
 		}
-		progress := false
 		for i, l := range locs {
 			path := text[l[2]:l[3]]
 			end := len(text)
@@ -409,8 +427,15 @@ func (m *Module) Build(include func(b *Built) bool) (string, error) {
 				end = locs[i+1][0]
 			}
 			body := text[l[1]:end]
-			parts := strings.Split(path, "/")
-			key := strings.Join(parts[:3], "/")
+			// <module>/cases/<id>[/...]
+			key := path
+			if i := strings.Index(path, "/cases/"); i >= 0 {
+				rest := path[i+len("/cases/"):]
+				if j := strings.Index(rest, "/"); j >= 0 {
+					rest = rest[:j]
+				}
+				key = path[:i] + "/cases/" + rest
+			}
 			if b, ok := byPath[key]; ok && b.CompileErr == "" {
 				b.CompileErr = strings.TrimSpace(body)
 				progress = true
